@@ -46,7 +46,7 @@ pub fn kdeliver() {
             if real_prev {
                 if calls != 1 {
                     D::bad_count = true;
-                } else if p0 < 4 {
+                } else if p0 < libc::vshim::mem::NPREV {
                     let c = PREV_CALLS[p0];
                     D::chained += 1;
                     if c.fptr != D::prev_h || c.sig != SA {
